@@ -57,6 +57,25 @@ def gen_sjson():
     need(Meta.__init__ is Attr.__init__, 'Meta overrides __init__')
     for n, f in inits.items():
         body.append('Definition SJSON_INIT_%s : list str := %s.' % (n, _strlist(_params(f))))
+    # is_sjson: content = f.read(N); COMMENT[:M].lower() in content.lower()   (constants live in the function body: read from the AST)
+    import ast, textwrap
+    tree = ast.parse(textwrap.dedent(inspect.getsource(S.is_sjson)))
+    reads = [n.args[0].value for n in ast.walk(tree) if isinstance(n, ast.Call) and isinstance(n.func, ast.Attribute)
+             and n.func.attr == 'read' and len(n.args) == 1 and isinstance(n.args[0], ast.Constant)]
+    slices = [n.slice.upper.value for n in ast.walk(tree) if isinstance(n, ast.Subscript) and isinstance(n.value, ast.Name)
+              and n.value.id == 'COMMENT' and isinstance(n.slice, ast.Slice) and n.slice.lower is None
+              and isinstance(n.slice.upper, ast.Constant)]
+    need(len(reads) == 1 and isinstance(reads[0], int) and 0 < reads[0] < 5000, 'is_sjson: cannot find the single f.read(N)')
+    need(len(slices) == 1 and isinstance(slices[0], int) and 0 < slices[0] < 5000, 'is_sjson: cannot find COMMENT[:M]')
+    src = inspect.getsource(S.is_sjson)
+    need('.lower() in content.lower()' in src.replace(' ', ' '), 'is_sjson is no longer a case-insensitive substring test')
+    body.append('Definition SJSON_SNIFF_READ : nat := %d%%nat.' % reads[0])
+    body.append('Definition SJSON_SNIFF_PREFIX : nat := %d%%nat.' % slices[0])
+    glob = sorted(k for k in vars(S) if isinstance(k, str) and k.isascii())
+    body.append('Definition SJSON_GLOBALS : list str := %s.' % _strlist(glob))
+    # json.dump is called with default separators / ensure_ascii (the text-head model and every transport rest on it)
+    wsrc = inspect.getsource(S.write_sjson)
+    need('json.dump(seqs, f, cls=_SJSONEncoder)' in wsrc, 'write_sjson no longer calls json.dump(seqs, f, cls=_SJSONEncoder) with default options')
     res = sorted(n for n in set(dir(Meta)) | set(dir(Attr)) if not n.startswith('_'))
     body.append('Definition SJSON_ATTR_RESERVED : list str := %s.' % _strlist(res))
     emit('G_sjson', 'sugar._io.sjson (SUGAR, COMMENT), vars()/signatures of the serialised classes, dir(Meta)', '\n'.join(body) + '\n')
